@@ -71,7 +71,8 @@ def optNat : Option Nat → String
 
 def evTok (l : List Ev) : String :=
   if l.isEmpty then "-" else String.ofList (l.map fun e => match e with
-    | .rootca => 'R'
+    | .rootca true => 'R'       -- `ROOTCA` callback with the announced value already stored
+    | .rootca false => 'r'
     | .workload true => 'W'     -- `default` callback that found the workload cache empty
     | .workload false => 'w')
 
@@ -106,13 +107,29 @@ structure DState where
   tick : Int := 0        -- logical clock: one tick per op
   subs : List Sub := []  -- stream `sds`, in subscription order (ids increase)
   sds  : Bool := false   -- the case is an `sds` case
+  file : Bool := false   -- the case is a `file` case (file-mounted certificates)
+  fileWv : Nat := 0      -- stream `file`: version of the key/cert pair on disk
+  fileRoot : Nat := 0    -- stream `file`: root on disk
+  fileCroot : List Nat := [] -- stream `file`: cache.certRoot (set by generateRootCertFromExistingFile)
   cafail : Nat := 0      -- stream `sds`: CA calls that still have to fail
   caroot : Nat := 0      -- stream `sds`: root the CA signs with
+
+/-- The nearest-quarter bucket does not depend on the jitter draw: ratio a quarter, jitter bound ≤ 1/16. -/
+def bucketable (s : State) : Bool :=
+  decide (s.jitter.num * 16 ≤ (s.jitter.den : Int)) && decide ((s.ratio.num * 4) % (s.ratio.den : Int) = 0)
 
 def newBucket (before after : State) : String :=
   if after.queue.length > before.queue.length then
     match after.queue.getLast? with
-    | some en => toString (bucket en.delay (en.expire - en.created))
+    | some en => if bucketable after then toString (bucket en.delay (en.expire - en.created)) else "*"
+    | none => "-"
+  else "-"
+
+/-- `P`: PushDelayed ran with the certificate already cached, `p`: with the cache still empty. -/
+def newPush (before after : State) : String :=
+  if after.queue.length > before.queue.length then
+    match after.queue.getLast? with
+    | some en => if en.cachedAtPush then "P" else "p"
     | none => "-"
   else "-"
 
@@ -138,7 +155,7 @@ def stepCache (d : DState) (toks : List String) : DState × String :=
     | some res, some out =>
       let y := seqOp d.sys d.next (.gen res) { ca := out, now := now }
       match y.procs d.next with
-      | .gDone ret => ({ d1 with sys := y }, s!"{showRet ret} ev={evs y.st} nb={newBucket before y.st} | {showState y.st}")
+      | .gDone ret => ({ d1 with sys := y }, s!"{showRet ret} ev={evs y.st} nb={newBucket before y.st} push={newPush before y.st} | {showState y.st}")
       | _ => (d1, "stuck")
     | _, _ => (d, "bad-op")
   | ["bundle", b] =>
@@ -254,7 +271,7 @@ def sdsGen (d : DState) (res : Res) : DState × Option String :=
             cafail := if called && d.cafail > 0 then d.cafail - 1 else d.cafail }, desc)
 
 def evRes : Ev → Res
-  | .rootca => .root
+  | .rootca _ => .root
   | .workload _ => .workload
 
 def resLetter : Res → String
@@ -326,6 +343,36 @@ def stepSds (d : DState) (toks : List String) : DState × String :=
         | none => sdsSettle before { d2 with subs := d2.subs ++ [{ sb0 with state := "closed" }] }
         | some rtt => sdsSettle before { d2 with subs := d2.subs ++ [{ sb0 with n := 1, lastW := wt, lastR := rtt }] }
     | none => (d, "bad-op")
+  | ["resub", c, r] =>
+    -- a changed resource set on a live stream: after an unsubscribe everything requested is sent (INIT), otherwise
+    -- only what was added (`delta.Subscribed`), nothing for a removal
+    match c.toNat? with
+    | some id =>
+      match d.subs.find? (fun x => x.id == id && x.state == "live") with
+      | none => (d, "bad-op")
+      | some sb =>
+        if !(r == "w" || r == "r" || r == "wr") then (d, "bad-op") else
+        let nsb : Sub := { sb with res := r }
+        let sendW := hasRes nsb .workload && (sb.res.isEmpty || !hasRes sb .workload)
+        let sendR := hasRes nsb .root && (sb.res.isEmpty || !hasRes sb .root)
+        let d0 := setSub d id fun x => { x with res := r }
+        if !(sendW || sendR) then sdsSettle before d0 else
+        let (d1, w) := if sendW then sdsGen d0 .workload else (d0, some "")
+        match w with
+        | none => sdsSettle before (setSub d1 id fun x => { x with state := "closed" })
+        | some wt =>
+          let (d2, rt) := if sendR then sdsGen d1 .root else (d1, some "")
+          match rt with
+          | none => sdsSettle before (setSub d2 id fun x => { x with state := "closed" })
+          | some rtt => sdsSettle before (setSub d2 id fun x =>
+              { x with n := x.n + 1, lastW := if sendW then wt else x.lastW, lastR := if sendR then rtt else x.lastR })
+    | none => (d, "bad-op")
+  | ["bundlen", b] =>
+    let d1 := { d with sys := seqOp d.sys d.next (.update (tokRoots b)) { now := now }, next := d.next + 1, tick := d.tick + 1 }
+    let (d2, tok) := sdsRounds 7 before.length d1 ""
+    let (d3, _) := sdsGen d2 .workload        -- the harness's own GenerateSecret(default)
+    let (d4, tok2) := sdsRounds 7 d2.sys.st.events.length d3 ""
+    (d4, sdsShow d4 (if tok2 == "-" then tok else (if tok == "-" then tok2 else tok ++ tok2)))
   | ["unsub", c] =>
     match c.toNat? with
     | some id =>
@@ -364,12 +411,32 @@ def sdsInit : DState :=
   let (d2, _) := sdsGen d1 .root
   d2
 
+/-! Stream `file`: file-mounted certificates are served from the files (DESIGN: "returns the file pair"): never
+the CA, never the cache or the queue; ROOTCA = root on disk merged with the configured anchors and recorded in
+certRoot; a replaced file is announced to that resource's subscribers. -/
+def stepFile (d : DState) (toks : List String) : DState × String :=
+  let st (x : DState) := s!"croot={rootsTok x.fileCroot} cfg={rootsTok x.sys.st.cfg} wl=- ca=0"
+  match toks with
+  | ["fgen", "w"] => (d, s!"ok pair={d.fileWv} ev=- | {st d}")
+  | ["fgen", "r"] =>
+    let d1 := { d with fileCroot := [d.fileRoot] }
+    (d1, s!"ok root={rootsTok (mergeAnchors d.sys.st.cfg [d.fileRoot])} ev=- | {st d1}")
+  | ["fwrite", "w"] => let d1 := { d with fileWv := d.fileWv + 1 }; (d1, s!"cb=1 other=0 | {st d1}")
+  | ["fwrite", "r"] => let d1 := { d with fileRoot := (d.fileRoot + 1) % 5 }; (d1, s!"cb=1 other=0 | {st d1}")
+  | ["bundle", b] =>
+    let before := d.sys.st.events
+    let y := seqOp d.sys d.next (.update (tokRoots b)) {}
+    let d1 := { d with sys := y, next := d.next + 1 }
+    (d1, s!"ev={evTok (y.st.events.drop before.length)} | {st d1}")
+  | _ => (d, "bad-op")
+
 def stepD (d : DState) (toks : List String) : DState × String :=
   match toks with
   | ["case", _, "cache", rn, rd, jn, jd] =>
     match frac? rn rd, frac? jn jd with
     | some r, some J => ({ sys := Sys.init r J }, "ok")
     | _, _ => (d, "bad-op")
+  | ["case", _, "file"] => ({ file := true }, "ok")
   | ["case", _, "sds"] => ({ sdsInit with sds := true }, "ok")
   | "case" :: _ => ({}, "ok")
   | "rot" :: _ => (d, stepRotate toks)
@@ -386,7 +453,10 @@ def stepD (d : DState) (toks : List String) : DState × String :=
     else if kind == "three" then stepCache d ["gen", r, "ok", "3600", "B", "-"]
     else if kind == "leafonly" || kind == "empty" || kind == "error" then stepCache d ["gen", r, "signerr"]
     else (d, "bad-op")
+  -- `rz`: ratio 1 on the client's OWN delayed queue: every task runs at once, after its certificate was stored
+  | ["rz", _] => (d, "lost-rotations=0")
   | ["qs", _, _] => (d, "lost=0 burst:lost-delayed=0,lost=0,early=0")   -- in the model a pushed task can always be started (`spawn (.timer e)`)
-  | _ => if d.sds then stepSds d toks else stepCache d toks
+  | ["outdir", _, _] => (d, "ok files")   -- OutputKeyCertToDir: observed, not modelled
+  | _ => if d.file then stepFile d toks else if d.sds then stepSds d toks else stepCache d toks
 
 end IstioModel.C18
